@@ -2700,6 +2700,7 @@ impl<T: PPGEvaluatorStrategy> PPGEvaluator<T> {
                     history_output: j.history_output.clone(),
                     last_considered_in_gen: j.last_considered_in_gen,
                     in_dag: self.dag.contains_node(idx),
+                    was_started: j.was_started,
                 })
                 .collect(),
             edges,
